@@ -376,7 +376,9 @@ func c09fAttrs(c c09fCase) []bgp.PathAttributeInterface {
 	}
 	nh, _ := bgp.NewPathAttributeNextHop(nhIP)
 	attrs = append(attrs, nh, bgp.NewPathAttributeMultiExitDisc(77))
-	if p.Kind == c09fKIBGP || p.Kind == c09fKClient || p.Kind == c09fKConfed {
+	if p.Kind == c09fKIBGP || p.Kind == c09fKClient || p.Kind == c09fKConfed || p.Kind == c09fKRS {
+		// (a route-server client's route carries LOCAL_PREF too: the route server hands routes on unchanged, and
+		// producing another client's copy must not take the attribute out of the stored route)
 		attrs = append(attrs, bgp.NewPathAttributeLocalPref(150))
 	}
 	switch c.Orig {
